@@ -27,6 +27,8 @@ func runC14(c *eng.Ctx) {
 	seekSkipsEmptySlots(c)
 	bitReaderFetchesOnlyWhenNeeded(c)
 	decoderAcceptsTheShortestBlock(c)
+	streamWriterKeepsNoReferenceToTheBlock(c)
+	decompressionReadsTheWholeStream(c)
 	p := c.P
 	deltaWidthCoversEveryDelta(c)
 	fixedOffsetReadsItsOwnBytes(c)
